@@ -290,6 +290,19 @@ Theorem C17_get_events_paths : forall e,
 Proof. exact get_events_paths. Qed.
 Print Assumptions C17_get_events_paths.
 
+(* the general form, for ANY base path (leading / trailing / doubled slashes are cleaned by path.Join
+   inside the proof): when no segment of the base is a ":name" or "{...}" part and the key names (and
+   their snake forms) contain no '/', the path parameters of Get and of Events are the snake names of
+   the primary and shard keys in declaration order, and Events is Get followed by /events *)
+Theorem C17_query_paths_params : forall e,
+  Forall (fun p => plain_seg p = true) (segments (query_base e)) ->
+  Forall (fun u => key_seg_ok u = true) (get_keys e) ->
+  rule_params (nth 0 (query_paths e) []) = map (fun u => to_snake (uf_name u)) (get_keys e)
+  /\ rule_params (nth 2 (query_paths e) []) = map (fun u => to_snake (uf_name u)) (get_keys e)
+  /\ nth 2 (query_paths e) [] = nth 0 (query_paths e) [] ++ bs "/events".
+Proof. exact query_paths_params. Qed.
+Print Assumptions C17_query_paths_params.
+
 (* for ordinary declarations (identifier names, package without ':', no baseUrlPath override)
    the paths are literally /<pkg>/<snake name>/q/{k}.. and .../events over the primary+shard keys *)
 Theorem C17_default_paths : forall e,
